@@ -41,37 +41,77 @@ Definition is_expression (x : str) : Prop :=
   (exists r, x = s "//" ++ r) \/ (exists r, x = s ":" ++ r)
   \/ ((exists r, x = s "@" ++ r) /\ ((exists a b, x = a ++ s ":" ++ b) \/ (exists a b, x = a ++ s "//" ++ b))).
 
-(* the targets a build expression denotes *)
-Definition denotes (e that : label) : Prop :=
+(* the targets a build expression denotes, within one repository: package and name *)
+Definition denotes_names (e that : label) : Prop :=
   (l_name e = s "..." /\ (l_pkg e = [] \/ l_pkg that = l_pkg e \/ exists rest, l_pkg that = l_pkg e ++ SLASH :: rest))
   \/ (l_name e = s "all" /\ l_pkg that = l_pkg e)
   \/ (l_pkg that = l_pkg e /\ l_name that = l_name e).
 
+(* the targets a build expression denotes: those of ITS repository (the host repository, or the subrepo it names)
+   whose package and name it covers.  `//pkg:x` does not match `///sub//pkg:x`, nor the other way round. *)
+Definition denotes (e that : label) : Prop := l_sub that = l_sub e /\ denotes_names e that.
+
+(* the documented reading of the exclude expression forms, from the package `cur` plz was started in:
+     :name              -> //cur:name            (also :all, and :... for everything below cur)
+     //pkg:name         -> that target of the host repository
+     ///sub//pkg:name, @sub//pkg:name -> that target of subrepo sub *)
+Inductive reads (cur : str) : str -> label -> Prop :=
+| read_relative name :
+    validate_target_name name = true ->
+    reads cur (COLON :: name) {| l_sub := []; l_pkg := cur; l_name := name |}
+| read_absolute p name :
+    validate_package_name p = true -> validate_target_name name = true -> name <> s "..." ->
+    reads cur (s "//" ++ p ++ COLON :: name) {| l_sub := []; l_pkg := p; l_name := name |}
+| read_subrepo_slashes sub p name :
+    ~ In COLON sub -> (forall a b, sub <> a ++ s "//" ++ b) -> last sub 0%N <> SLASH ->
+    validate_package_name p = true -> validate_target_name name = true -> name <> s "..." ->
+    reads cur (s "///" ++ sub ++ s "//" ++ p ++ COLON :: name) {| l_sub := sub; l_pkg := p; l_name := name |}
+| read_subrepo_at sub p name :
+    ~ In COLON sub -> (forall a b, sub <> a ++ s "//" ++ b) -> last sub 0%N <> SLASH ->
+    validate_package_name p = true -> validate_target_name name = true -> name <> s "..." ->
+    reads cur (s "@" ++ sub ++ s "//" ++ p ++ COLON :: name) {| l_sub := sub; l_pkg := p; l_name := name |}.
+
 (* THE RULE: selected <-> (no include given, or some include group carried) and no exclude group carried and no
-   exclude expression denotes the target. *)
-Definition selected (include exclude : list str) (t : target) : Prop :=
+   exclude expression (read from the package `cur` plz was started in) denotes the target. *)
+Definition selected (cur : str) (include exclude : list str) (t : target) : Prop :=
   (include = [] \/ exists g, In g include /\ carries_group t g)
   /\ (forall x, In x exclude -> ~ is_expression x -> ~ carries_group t x)
-  /\ (forall x e, In x exclude -> is_expression x -> parse_exclude x = Some e -> ~ denotes e (t_label t)).
+  /\ (forall x e, In x exclude -> is_expression x -> parse_exclude cur x = Some e -> ~ denotes e (t_label t)).
 
 (* some --exclude argument covers the target *)
-Definition excluded (exclude : list str) (t : target) : Prop :=
+Definition excluded (cur : str) (exclude : list str) (t : target) : Prop :=
   exists x, In x exclude /\
     ((~ is_expression x /\ carries_group t x)
-     \/ (is_expression x /\ exists e, parse_exclude x = Some e /\ denotes e (t_label t))).
+     \/ (is_expression x /\ exists e, parse_exclude cur x = Some e /\ denotes e (t_label t))).
 
-(* the packages a pseudo label ranges over *)
-Definition covers (l : label) (pkgname : str) : Prop :=
+(* the package names a pseudo label ranges over, within one repository *)
+Definition covers_names (l : label) (pkgname : str) : Prop :=
   (l_name l = s "all" /\ pkgname = l_pkg l)
   \/ (l_name l = s "..." /\ (l_pkg l = [] \/ pkgname = l_pkg l \/ exists rest, pkgname = l_pkg l ++ SLASH :: rest)).
 
-(* a graph as the parser builds it: one package per name, one target per name, targets know their package *)
+(* the packages a pseudo label ranges over: those of its own repository *)
+Definition covers (l : label) (p : package) : Prop := p_sub p = l_sub l /\ covers_names l (p_name p).
+
+(* a graph as the parser builds it: one package per (subrepo, name) - as the code keys them, by the printed key -,
+   one target per name, targets know their package and repository *)
 Definition wf_graph (g : graph) : Prop :=
-  NoDup (map p_name g)
-  /\ forall p, In p g -> NoDup (map t_name (p_targets p)) /\ forall t, In t (p_targets p) -> t_pkg t = p_name p.
+  NoDup (map pkg_key g)
+  /\ forall p, In p g -> NoDup (map t_name (p_targets p))
+                         /\ forall t, In t (p_targets p) -> t_pkg t = p_name p /\ t_sub t = p_sub p.
+
+(* the known defect, as executable classifiers.
+   (1) BuildLabel.Includes does not look at Subrepo: an exclude expression of ANOTHER repository whose package and
+       name cover the target rejects it. *)
+Definition confused (st : state) (t : target) : bool :=
+  existsb (fun e => includes e (t_label t) && negb (str_eqb (l_sub e) (t_sub t))) (st_exclude_targets st).
+
+(* (2) the `...` branch of expandOriginalPseudoTarget compares the label's package with the PackageMap key
+       (`@sub//pkg` for a subrepo package) and never looks at the label's Subrepo: it is right when the label and all
+       packages of the graph belong to the host repository. *)
+Definition host_only (g : graph) (l : label) : Prop := l_sub l = [] /\ forall p, In p g -> p_sub p = [].
 
 (* the documented selection for one requested :all or /... label *)
-Definition in_selection (include exclude : list str) (g : graph) (l : label)
+Definition in_selection (cur : str) (include exclude : list str) (g : graph) (l : label)
            (just_tests : bool) (lbl : label) : Prop :=
-  exists p t, In p g /\ covers l (p_name p) /\ In t (p_targets p) /\ t_label t = lbl
-              /\ (just_tests = true -> t_test t = true) /\ selected include exclude t.
+  exists p t, In p g /\ covers l p /\ In t (p_targets p) /\ t_label t = lbl
+              /\ (just_tests = true -> t_test t = true) /\ selected cur include exclude t.
